@@ -97,6 +97,9 @@ def jobs_for(tier):
     # schedules: refresh at start step, hold in between, refresh at later multiples (re-based so that terms stay small)
     add(graft="adam", nesterov=True, bias_corr=True, decoupled=True, pf=2, sps=2, T=4, rebase=True)
     add(graft=None, nesterov=False, bias_corr=False, decoupled=False, pf=2, sps=3, T=4, rebase=True)
+    # inductive step: arbitrary re-based state AND arbitrary step number k (symbolic integer), one real step() from there
+    add(graft="adam", nesterov=True, bias_corr=True, decoupled=True, pf=3, sps=4, T=3, rebase=True, symbolic_step=True)
+    add(graft=None, nesterov=False, bias_corr=True, decoupled=False, pf=2, sps=2, T=2, rebase=True, symbolic_step=True, fixed=dict(mom=0))
     # merged dims, order-3 block, inverse-root override, exponent multiplier, ignored dims
     add(params=[(2, 1, 2)], mpd=4, merge=True, graft="sgd", bias_corr=True)
     add(params=[(2, 2, 2)], mpd=2, merge=False, graft=None, pf=1, sps=1, T=1, fixed=dict(wd=0, mom=0))
